@@ -2016,7 +2016,7 @@ def unroll_const_loops(body, max_rounds=16):
                         last = hi if c0["opcode"] == "<=" else hi - 1
                         if 0 <= last - lo < max_rounds:
                             for k in range(lo, last + 1):
-                                rb = copy.deepcopy(b_)
+                                rb = _rename(b_, {})          # locals declared in the body are new objects in every round
                                 holder = {"kind": "CompoundStmt", "inner": [rb]}
                                 subst(holder, v["id"], k)
                                 out.append(holder["inner"][0])
